@@ -3,6 +3,6 @@
 cd /verif
 for d in seeded/*/; do
   id=$(basename $d); prop=$(/venv/bin/python -c "import json;print(json.load(open('$d/meta.json'))['breaks_property'])")
-  out=$(LINES_MAX=50 tools/seed_run.sh $d $prop ${1:-quick} 2>&1)
+  out=$(LINES_MAX=100000 tools/seed_run.sh $d $prop ${1:-quick} 2>&1)
   if echo "$out" | grep -q "violations=0 "; then echo "MISSED   $id ($prop)"; elif echo "$out" | grep -q "violations="; then echo "DETECTED $id ($prop) $(echo "$out" | grep -c 'key=') keys"; else echo "ERROR    $id: $out" | head -3; fi
 done
